@@ -912,8 +912,9 @@ Example ex_text :
   /\ text_encode_pinned_o [mkMF [97] [104] UNTYPED [ex_metric]] = OutPanic S_TEXT_UNTYPED    (* the pinned tree *)
   /\ text_bounded ex_show [mkMF [97] [104] COUNTER [ex_metric]; mkMF [98] [] HISTOGRAM [ex_metric]].
 Proof.
-  repeat apply conj; try (vm_compute; reflexivity).
-  unfold text_bounded. vm_compute flat_map. repeat apply Forall_cons; try apply Forall_nil; vm_compute; discriminate.
+  repeat apply conj.
+  1-5: vm_compute; reflexivity.
+  unfold text_bounded. repeat apply Forall_cons; try apply Forall_nil; unfold str_bounded; cbn [fst]; vm_compute; discriminate.
 Qed.
 Example ex_pb :
   pb_encode_o [pb_of_family (mkMF [97] [104] COUNTER [])] = OutErr EMsg
@@ -933,8 +934,7 @@ Example ex_bounds :
   opts_bounded (ex_opts [97] [([98], [])] [[99]]) /\ desc_bounded ex_desc /\ count_bounded 4096 /\ str_bounded [92; 0xE9; 10]
   /\ coherent ex_vec /\ good_buckets ex_vec /\ opts_bounded (v_opts ex_vec).
 Proof.
-  repeat apply conj; try (vm_compute; (reflexivity || discriminate)).
-  intros H; vm_compute in H; discriminate.
+  repeat apply conj; vm_compute; first [reflexivity | discriminate | exact I].
 Qed.
 
 (* ShardIndex::from (site 19, not on a Result-returning path): `n >> 63` of a u64 is 0 or 1 *)
